@@ -3089,3 +3089,21 @@ M("C07", "break-filter-after-carving", DL,
   "        filter_and_replace_breaks_connected_to_end_events(graph, loop)\n        sub_graph, start_event, end_event = create_sub_graph_of_loop(\n            loop, graph\n        )\n",
   "        sub_graph, start_event, end_event = create_sub_graph_of_loop(\n            loop, graph\n        )\n        filter_and_replace_breaks_connected_to_end_events(graph, loop)\n",
   "R7.13", "the body is carved before the dummy breaks exist")
+
+# ---- wave x
+M("C07", "pruned-set-extended", SGL,
+  "    remove_event_sets_mirroring_removed_edges(\n        set(\n            EventEdge(*edge)\n            for edge in sub_graph.out_edges(nodes_without_path_back)",
+  "    nodes_without_path_back.update(\n        node for node in sub_graph.nodes if sub_graph.out_degree(node) == 0\n    )\n    remove_event_sets_mirroring_removed_edges(\n        set(\n            EventEdge(*edge)\n            for edge in sub_graph.out_edges(nodes_without_path_back)",
+  "R7.15", "dead-end events are pruned from the body as well (seed C07-x)")
+M("C14", "save-failure-swallowed", "otel_to_pv/otel_to_pv.py",
+  "            handle_save_events(\n                job_name,\n                pv_event_streams,\n                output_file_directory,\n                mapping_config,\n            )",
+  "            try:\n                handle_save_events(\n                    job_name,\n                    pv_event_streams,\n                    output_file_directory,\n                    mapping_config,\n                )\n            except OSError:\n                continue",
+  "R14.8", "a job file that cannot be written is skipped (seed C14-x)")
+T("C14", "twin-save-failure-rewrapped", "otel_to_pv/otel_to_pv.py",
+  "            handle_save_events(\n                job_name,\n                pv_event_streams,\n                output_file_directory,\n                mapping_config,\n            )",
+  "            try:\n                handle_save_events(\n                    job_name,\n                    pv_event_streams,\n                    output_file_directory,\n                    mapping_config,\n                )\n            except OSError as error:\n                raise OSError(f\"cannot save events of {job_name}\") from error",
+  "the failure still aborts the export")
+M("C01", "events-rebound-when-empty", "pv_to_puml/data_ingestion.py",
+  "    if events is None:\n        events = {}\n    for graph_solution in graph_solutions:",
+  "    if not events:\n        events = {}\n    for graph_solution in graph_solutions:",
+  "R1.30", "an empty model passed in is replaced, the caller saves its own empty dict (seed C01-x)")
